@@ -39,6 +39,7 @@ def join(side, with_, on, alias="", explicit=False):
     return {"op": "join", "side": side, "with": with_, "on": on, "alias": alias, "explicit_side": explicit}
 def eqcol(name): return {"t": "eqcol", "name": name}
 def append(with_): return {"op": "append", "with": with_}
+def loop(pipe): return {"op": "loop", "pipe": pipe}
 
 # ---------------------------------------------------------------------------------------
 # Step alphabets (tables t(k,a,b), u(k,a,c)).  One representative argument per shape; the
